@@ -202,6 +202,24 @@ def rule_key(fx, rep):
     rep.rule("C19-KEY", n, 1, ok, "Some(..) returns of get guarded by full key equality")
 
 
+def field_stores(fx, body):
+    """[(bb, idx_expr, field, value_expr, line)] - assignments to one field (`key` / `data`) of the entry held in a slot of
+    self.data, made through a mutable reference to the entry (`existing.data = data`)."""
+    out = []
+    for bb, j, s in body.stmts():
+        if s["k"] != "assign":
+            continue
+        lhs = s["lhs"]
+        p = lhs.get("p") or []
+        if len(p) == 2 and p[0] == "*" and isinstance(p[1], dict) and norm(p[1].get("adt", "")) == TTE and p[1].get("n") in ("key", "data"):
+            tgt = body.expr({"l": lhs["l"], "p": []}, expand_named=True, at=bb)
+            sl = slot_of(("deref", tgt)) or slot_of(tgt)
+            if sl is not None:
+                val = body.expr(s["rv"].get("op"), expand_named=True, at=bb) if s["rv"]["k"] == "use" else None
+                out.append((bb, sl[0], p[1]["n"], val, s.get("line")))
+    return out
+
+
 def stores(fx, body, _depth=0):
     """[(bb, idx_expr, value_expr)] — assignments through index_mut / get_unchecked_mut of self.data"""
     out = []
@@ -327,6 +345,31 @@ def rule_policy(fx, rep):
         rep.sample({"rule": "C19-POLICY", "store_line": line, "ok": good})
         if not good:
             bad(f"store/{len([x for x in st if x[0] <= bb])}", f"TranspositionTable::insert {why}", line)
+    # an entry updated in place, field by field: whenever the data of a slot is replaced, its key must become the new key on
+    # the same run - otherwise the slot pairs the previous owner's key with the newcomer's data
+    fs = field_stores(fx, ins)
+    for (bb, idx, fld, val, line) in fs:
+        if fld != "data":
+            continue
+        n += 1
+        keyed = [kb for (kb, kidx, kf, kval, _l) in fs if kf == "key" and show(kidx) == show(idx) and kval is not None and
+                 (strip_refs(kval) == keyarg or (isinstance(strip_refs(kval), tuple) and strip_refs(kval)[0] == "call" and str(strip_refs(kval)[1]).endswith("clone") and strip_refs(strip_refs(kval)[2][0]) == keyarg)) and
+                 (kb == bb or ins.block_dominates(kb, bb) or ins.must_pass(bb, [kb], ins.return_blocks()))]
+        good = bool(keyed)
+        why = "" if good else "replaces the data of an occupied slot in place without writing the new key: the slot then holds the previous owner's key with the newcomer's data, and a probe of the old key returns data of another position"
+        if good and not is_entry_idx(idx, keyarg):
+            good, why = False, f"updates slot `{show(idx)[:80]}`, not get_entry_idx(key)"
+        if good:
+            emp_e, pol_e = admitting_edges(ins, idx, dataarg)
+            if pol_e and bb in ins.reachable(0, removed_edges=pol_e):
+                good, why = False, "replaces the data of an occupied slot in place on a path on which `existing.data.should_overwrite_with(&data)` was not true"
+            elif not pol_e:
+                guarded = any(pol is True and find_calls(e, "should_overwrite_with") for (e, pol, where) in guard_conditions(ins, bb, expand_named=True))
+                if not guarded:
+                    good, why = False, "replaces the data of an occupied slot in place without `existing.data.should_overwrite_with(&data)` being true"
+        rep.obligation(good)
+        if not good:
+            bad("store/in-place", f"TranspositionTable::insert {why}", line)
     # occupied += 1 exactly in the empty arm
     incs = []
     for bb, j, s in ins.stmts():
@@ -745,6 +788,15 @@ def rule_pref(fx, rep):
 TTF = "src/engine/transposition_table.rs"
 STT = "src/engine/search/transposition.rs"
 MUTANTS = [
+    {"name": "occupied slot updated in place, data only (seed C19-5a)", "expect": "C19-POLICY/store/in-place",
+     "edits": [("src/engine/transposition_table.rs", "            if let Some(existing_data) = self.data.get_unchecked(idx) {\n                if existing_data.data.should_overwrite_with(&data) {\n                    self.data[idx] = Some(TranspositionTableEntry {\n                        key: key.clone(),\n                        data,\n                    });\n                }",
+                "            if let Some(existing) = self.data.get_unchecked_mut(idx) {\n                if existing.data.should_overwrite_with(&data) {\n                    existing.data = data;\n                }")]},
+    {"name": "occupied slot updated in place regardless of the replacement predicate", "expect": "C19-POLICY/store/in-place",
+     "edits": [("src/engine/transposition_table.rs", "            if let Some(existing_data) = self.data.get_unchecked(idx) {\n                if existing_data.data.should_overwrite_with(&data) {\n                    self.data[idx] = Some(TranspositionTableEntry {\n                        key: key.clone(),\n                        data,\n                    });\n                }",
+                "            if let Some(existing) = self.data.get_unchecked_mut(idx) {\n                let _ = existing.data.should_overwrite_with(&data);\n                {\n                    existing.key = key.clone();\n                    existing.data = data;\n                }")]},
+    {"name": "benign: occupied slot updated in place, key and data", "benign": True,
+     "edits": [("src/engine/transposition_table.rs", "            if let Some(existing_data) = self.data.get_unchecked(idx) {\n                if existing_data.data.should_overwrite_with(&data) {\n                    self.data[idx] = Some(TranspositionTableEntry {\n                        key: key.clone(),\n                        data,\n                    });\n                }",
+                "            if let Some(existing) = self.data.get_unchecked_mut(idx) {\n                if existing.data.should_overwrite_with(&data) {\n                    existing.key = key.clone();\n                    existing.data = data;\n                }")]},
     {"name": "hashfull reported in percent", "expect": "C19-FILLIND/formula",
      "edits": [(TTF, "        let permille = decimal * 1000.0;", "        let permille = decimal * 100.0;")]},
     {"name": "hashfull measured against the size in megabytes", "expect": "C19-FILLIND/formula",
